@@ -171,3 +171,30 @@ def run_replay(scratch, test_filter, values, timeout=1800):
   void = "replay is void" in out or nran == 0
   failed = (rc != 0) and not void and ("test result: FAILED" in out or "panicked at" in out)
   return {"failed": failed, "void": void, "rc": rc, "output": out[-5000:], "cmd": "VK_REPLAY='%s' %s" % (env["VK_REPLAY"], " ".join(cmd))}
+
+
+def run_witness_test(scratch, test_file, timeout=1800):
+  """an integration test (public API only) kept under /verif/witness: copied into core/tests of the scratch copy and run with the
+  repo toolchain.  Returns dict(failed, void, output, cmd)."""
+  name = os.path.splitext(os.path.basename(test_file))[0]
+  shutil.copy(test_file, os.path.join(scratch.dir, "core", "tests", name + ".rs"))
+  env = dict(os.environ)
+  env["CARGO_NET_OFFLINE"] = "true"
+  env["CARGO_TARGET_DIR"] = os.path.join(CACHE, "replay-target")
+  env["RUST_BACKTRACE"] = "0"
+  cmd = ["cargo", "test", "--offline", "-p", "rzmq", "--test", name, "--", "--test-threads", "1"]
+  lk = _lock()
+  try:
+    try:
+      p = subprocess.run(cmd, cwd=os.path.join(scratch.dir, "core"), env=env, capture_output=True, text=True, timeout=timeout)
+      out, rc = p.stdout + "\n" + p.stderr, p.returncode
+    except subprocess.TimeoutExpired:
+      out, rc = "TIMEOUT", -9
+  finally:
+    lk.close()
+  ran = re.search(r"running (\d+) test", out)
+  nran = int(ran.group(1)) if ran else 0
+  void = nran == 0
+  failed = (rc != 0) and not void and ("test result: FAILED" in out or "panicked at" in out)
+  keep = [ln for ln in out.split("\n") if not re.match(r"\s*(warning|-->|\||=|\d+ \|)", ln) and ln.strip()]
+  return {"failed": failed, "void": void, "rc": rc, "output": "\n".join(keep)[-4000:], "cmd": "cp %s core/tests/ && %s" % (test_file, " ".join(cmd))}
